@@ -446,10 +446,14 @@ func runC01() {
 		{`[":", ","][0]`, ":"}, {`S + ":" + S2`, "abc:b"}, {`{"a": ":"}.a`, ":"}, {`B ? "?" : ":"`, "?"}, {`"." + "."`, ".."}, {`filter(AS, {# != "."})`, []interface{}{"a", "b", "abc"}},
 		{`S in ["(", ")", "#"]`, false}, {`"in" in ["in", "and", "or"]`, true}, {`"not" == "not"`, true}, {`all(AS, {# != "{" and # != "}"})`, true}, {`AS[0] == "["`, false},
 		{`["#", ".", "?.", "..", "**"][4]`, "**"}, {`len("?:") + len("#")`, 3}, {`map(["#"], {#})[0]`, "#"},
+		// a map literal naming one key twice keeps the FIRST pair's value (every value expression is still evaluated once, in order)
+		{`{a: 1, a: 2}.a`, 1}, {`len({a: 1, a: 2, b: 3})`, 2}, {`{"k": "x", "k": "y"}.k`, "x"}, {`{(S2): 1, b: 2}.b`, 1}, {`{b: 1, (S2): 2}["b"]`, 1},
+		// decimal literals with redundant leading zeros are decimal
+		{`010`, 10}, {`0100 + 1`, 101}, {`08`, 8}, {`019 - 9`, 10}, {`007`, 7}, {`00`, 0}, {`[010, 08][1]`, 8}, {`010 == 10`, true}, {`010.5`, 10.5}, {`1..010`, []interface{}{1, 2, 3, 4, 5, 6, 7, 8, 9, 10}},
 	} {
 		for _, m := range modes {
 			rep.Evaluations++
-			rep.hist("hand-written value of a punctuation literal")
+			rep.hist("hand-written value (literals from the source text)")
 			var got interface{}
 			var err error
 			func() {
